@@ -281,12 +281,29 @@ def file_level(ck, n_cases):
         buf = io.BytesIO()
         inp = {"kind": "file", "version": ver, "fmt": fmt, "vlrs": [[u, r, d, p.hex()[:200]] for u, r, d, p in recs], "evlrs": [[u, r, d, p.hex()[:200]] for u, r, d, p in erecs]}
         ck.case(("file", ver, fmt, tuple(recs), tuple(erecs)), nontrivial=bool(recs or erecs))
+        compressed = False
         try:
-            las.write(buf)
+            import lazrs
+            compressed = ck.rng.random() < 0.35
+        except ImportError:
+            ck.count("no_backend_double")
+        las.x = [1.0 + i for i in range(ck.rng.choice([2, 2, 6, 11]))] if compressed else las.x
+        try:
+            if compressed:
+                # the same lists through a compressed file (conforming backend double): the EVLRs sit after the compressed stream
+                lazrs.CHUNK_SIZE = ck.rng.choice([3, 5])
+                ck.count("file_roundtrips_compressed")
+                inp["compressed"] = True
+                las.write(buf, do_compress=True, laz_backend=laspy.LazBackend.Lazrs)
+            else:
+                las.write(buf)
             back = laspy.read(io.BytesIO(buf.getvalue()))
         except Exception as e:
             ck.fail(f"file round trip raised {type(e).__name__}: {e}", inp)
             continue
+        finally:
+            if compressed:
+                lazrs.CHUNK_SIZE = 5
         # expected: what a direct VLRList round trip gives (normalisation of known types only)
         def expect(rs, ext):
             res = impl_roundtrip(rs, ext)
